@@ -81,7 +81,6 @@ func evalConst(e ast.Expr, consts map[string]ast.Expr) (float64, error) {
 	return 0, fmt.Errorf("unsupported constant expression %T", e)
 }
 
-
 type target struct{ recv, fn, def, via string }
 
 // functions left out of the lock traces, with the reason
